@@ -49,12 +49,13 @@ def main(argv=None):
         return 3
 
 
-def baseline_path():
-    return os.path.join(ROOT, "baseline", "obligations.json")
+def baseline_path(tier="quick"):
+    """reference obligation names per tier (the thorough tier generates more scenarios under other names)"""
+    return os.path.join(ROOT, "baseline", "obligations.json" if tier != "thorough" else "obligations.thorough.json")
 
 
-def load_baseline():
-    p = baseline_path()
+def load_baseline(tier="quick"):
+    p = baseline_path(tier)
     if os.path.exists(p):
         return json.load(open(p))
     return {}
@@ -69,13 +70,18 @@ def check(prop, tier, seed, a):
     contracts, lemmas, out = driver.run_property(prop, tier, seed, jobs=a.jobs)
     obs, meta, crashes = driver.aggregate(prop, contracts, lemmas, out)
     if crashes:
-        for c in crashes:
+        hard = [c for c in crashes if not c.startswith("TIMEOUT ")]
+        for c in hard:
             print("CHECKER-ERROR", c)
-        return 3
+        if hard:
+            return 3
+        for c in crashes:
+            print("UNDECIDED", c.strip())
+        return 2
     if not obs:
         print("CHECKER-ERROR no obligations generated")
         return 3
-    baseline = load_baseline().get(prop, {})
+    baseline = load_baseline(tier).get(prop, {})
     findings = [f for f in driver.load_known_findings() if f["property"] == prop]
     open_findings = [f for f in findings if f.get("status") == "open"]
     violations, undecided, known_hits = [], [], []
@@ -133,10 +139,10 @@ def check(prop, tier, seed, a):
     n_dis = sum(1 for o in obs.values() if o["status"] == "proved")
     write_evidence(prop, tier, seed, cfg, contracts, obs, meta, bounded, violations, undecided, known_hits, wall, missing)
     if a.update_baseline:
-        os.makedirs(os.path.dirname(baseline_path()), exist_ok=True)
-        full = load_baseline()
+        os.makedirs(os.path.dirname(baseline_path(tier)), exist_ok=True)
+        full = load_baseline(tier)
         full[prop] = {n: dict(backend=sorted(o["backends"]), paths=o["paths"]) for n, o in sorted(obs.items()) if o["status"] == "proved"}
-        json.dump(full, open(baseline_path(), "w"), indent=1, sort_keys=True)
+        json.dump(full, open(baseline_path(tier), "w"), indent=1, sort_keys=True)
     seen = set()
     for kf, name in known_hits:
         if kf["id"] not in seen:
